@@ -28,37 +28,6 @@ namespace sqf
             using iterator = std::vector<sqf::runtime::value>::iterator;
         private:
             std::vector<sqf::runtime::value> m_value;
-            bool recursion_test_(std::vector<std::shared_ptr<d_array>>& visited)
-            {
-                for (auto& it : m_value)
-                {
-                    if (it.type() == data_type())
-                    {
-                        // Get child
-                        auto arr = it.data<sqf::types::d_array>();
-
-                        // Check if child was visited already
-                        if (std::find(visited.begin(), visited.end(), arr) != visited.end())
-                        {
-                            // Child already was visited, recursion test failed.
-                            return false;
-                        }
-
-                        // Add child to visited list
-                        visited.push_back(arr);
-
-                        // Check child recursion
-                        if (!arr->recursion_test_(visited))
-                        {
-                            return false;
-                        }
-
-                        // Remove child from visited list
-                        visited.pop_back();
-                    }
-                }
-                return true;
-            }
         protected:
             bool do_equals(std::shared_ptr<data> other, bool invariant) const override
             {
@@ -142,7 +111,15 @@ namespace sqf
 
             // Returns true, if no recursion is present.
             // Returns false, if current array state contains a recursion.
-            bool recursion_test() { std::vector<std::shared_ptr<d_array>> vec; return recursion_test_(vec); }
+            void contained(std::vector<std::shared_ptr<sqf::runtime::data>>& out) const override
+            {
+                for (auto& it : m_value)
+                {
+                    if (!it.empty()) { out.push_back(it.data()); }
+                }
+            }
+            // False if this array holds itself, directly or through other containers (arrays, hashmaps).
+            bool recursion_test() { return !contains(this); }
 
 
 
@@ -165,7 +142,13 @@ namespace sqf
             iterator insert(iterator start, TIterator begin, TIterator end) { return m_value.insert(start, begin, end); }
 
             //#TODO emplace back
-            bool push_back(sqf::runtime::value val) { m_value.push_back(std::move(val)); if (!recursion_test()) { m_value.pop_back(); return false; } return true; }
+            bool push_back(sqf::runtime::value val)
+            {
+                // the only new edge leads to val: a cycle needs val to be, or to hold, this array
+                if (!val.empty() && (val.data().get() == this || val.data()->contains(this))) { return false; }
+                m_value.push_back(std::move(val));
+                return true;
+            }
             sqf::runtime::value pop_back() { auto back = m_value.back(); m_value.pop_back(); return back; }
 
             void reverse() { std::reverse(m_value.begin(), m_value.end()); }
